@@ -104,3 +104,22 @@
 (define-fun-rec pureTree ((n Node)) Bool
   (and ((_ is mkNode) n) (not (= (ntype n) {{ASTFunctionExpression}})) (not (= (ntype n) {{ASTExpRef}}))
        (forall ((i Int)) (! (=> (and (<= 0 i) (< i (nkids n))) (pureTree (select (kids n) i))) :pattern ((select (kids n) i))))))
+
+;; spec specGoVal (v Val) -> Bool
+; what a document made of Go values may contain (property C18): the JSON shapes, whose members may
+; again be such values, and values of any other Go type (VGo: structs, pointers, typed slices, named
+; scalars ...), which the interpreter only ever inspects through package reflect
+(define-fun-rec specGoVal ((v Val)) Bool
+  (or (specJSONVal v) ; in particular every literal of an expression
+      ((_ is VNil) v) ((_ is VBool) v) ((_ is VStr) v) ((_ is VNum) v) ((_ is VGo) v)
+      (and ((_ is VArr) v) (<= 0 (vlen v))
+           (forall ((i Int)) (! (=> (and (<= 0 i) (< i (vlen v))) (specGoVal (select (varr v) i))) :pattern ((select (varr v) i)))))
+      (and ((_ is VObj) v) (<= 0 (vsize v))
+           (forall ((k Str)) (! (=> (select (vdom v) k) (specGoVal (select (vmap v) k))) :pattern ((select (vmap v) k)))))))
+
+;; spec specGoResultOK (n Node) (v Val) -> Bool
+(define-fun specGoResultOK ((n Node) (v Val)) Bool
+  (ite (= (ntype n) {{ASTExpRef}}) (and ((_ is VExpRef) v) (= (vref v) (select (kids n) 0))) (specGoVal v)))
+
+;; spec specGoArgOK (v Val) -> Bool
+(define-fun specGoArgOK ((v Val)) Bool (ite ((_ is VExpRef) v) (wfNode (vref v)) (specGoVal v)))
